@@ -742,7 +742,7 @@ Record orun := {
   r_limit_raise : bool;            (* optimise() raised from inside the limit machinery: stop condition,
                                       timer, size / depth schedules, iterator *)
   r_pops : list opop;              (* populational: one entry per recorded population *)
-  r_started : nat;                 (* evolve steps started *)
+  r_started : nat;                 (* evolve steps started (random search: new individuals requested in the loop) *)
   r_broke : bool;                  (* a started step ended with EvaluationAttemptsError *)
   r_evolved_sizes : list nat;      (* sizes of the unlabelled generations of the history *)
   r_iters : nat;                   (* random search: current_iteration_num at the end *)
@@ -802,6 +802,8 @@ Definition ragree (r : orun) : bool :=
   else
     (* random search: all intermediate tests of the generation bound were False, the last stop test True *)
     match nog l with Some n => Nat.leb (r_iters r) n | None => true end
+    (* every loop iteration (generation of a new individual) is counted, evaluated or not *)
+    && Nat.eqb (r_started r) (r_iters r)
     && rs_stop_test l 0 (r_end_minutes r) (r_iters r)
     && Nat.leb (List.length (r_evolved_sizes r)) (r_iters r).
 
